@@ -213,6 +213,56 @@ func vpH_C09_chg_Activity() {
 	vpC09Chg(vpTypeIndex("Activity"), []string{"Actor", "Object", "Target", "Result", "Origin", "Instrument"})
 }
 
+// the same with every other property populated (and equal on both sides): a change in one property is
+// detected whatever else the value holds
+func vpC09ChgPopulated(ti int, only []string) {
+	fields := vpFieldsOf(ti)
+	f := 2 + vpChoice(len(fields)-2)
+	name := fields[f].Name
+	if only != nil {
+		ok := false
+		for _, n := range only {
+			if n == name {
+				ok = true
+			}
+		}
+		if !ok {
+			vpReach("end")
+			return
+		}
+	} else if name == "MediaType" || name == "Source" {
+		vpReach("end")
+		return
+	}
+	n := vpShapes(fields[f].Kind)
+	if n == 0 {
+		vpReach("end")
+		return
+	}
+	x := vpPopulated(ti)
+	y := vpCloneItem(x)
+	vpSymLeaves = false
+	vpSetField(y, f, (n+1)%n, 'Z')
+	vpSymLeaves = true
+	vpEvents(false)
+	differs := !vpEqItem(x, y)
+	vpEvents(true)
+	if !differs {
+		vpReach("end")
+		return
+	}
+	cell := vpTypeNames[ti] + "." + name
+	vpAssert("populated/changed-unequal/"+cell, !ItemsEqual(x, y))
+	vpAssert("populated/changed-unequal-rev/"+cell, !ItemsEqual(y, x))
+	vpAssert("populated/reflexive/"+cell, ItemsEqual(x, x) && ItemsEqual(y, y))
+	vpReach("end")
+}
+
+func vpH_C09_chg_populated_Object() { vpC09ChgPopulated(vpTypeIndex("Object"), nil) }
+func vpH_C09_chg_populated_Activity() {
+	vpC09ChgPopulated(vpTypeIndex("Activity"), []string{"Actor", "Object", "Target", "Result", "Origin", "Instrument"})
+}
+
 // a changed text is detected also when one side repeats an entry
 func vpH_C09_chg_text_dups() {
 	t1 := LangRef([]byte{vpRange('a', 'b'), 'x'})
